@@ -45,6 +45,9 @@ type g3Fixture struct {
 	events []g3Event
 	wire   []uint8 // message types parsed from the engine's outbound byte stream, in order
 	wireB  bytes.Buffer
+	peerBytes uint64 // payload bytes the raw peer has received from the engine
+	muxDone    bool          // the muxer has shut down (its error channel was closed)
+	readerDone chan struct{} // closed when the raw peer's reader has seen EOF
 	closed bool
 
 	// optional perturbation: called (outside the lock) at every hook event
@@ -84,6 +87,8 @@ type g3FixOpts struct {
 	perturb   func(kind string)
 	onHandle  func(msg protocol.Message) error
 	recvQueue int
+	// slowTimers: every state timeout is raised to at least one hour
+	slowTimers bool
 	noStart   bool
 }
 
@@ -91,7 +96,9 @@ func newG3Fixture(p *g3Proto, role protocol.ProtocolRole, o g3FixOpts) *g3Fixtur
 	a, b := net.Pipe()
 	f := &g3Fixture{proto: p, role: role, local: a, peer: b, errCh: make(chan error, 64), perturb: o.perturb, onHandle: o.onHandle}
 	f.cond = sync.NewCond(&f.mu)
+	f.readerDone = make(chan struct{})
 	f.mux = muxer.New(a)
+	go f.watchMux()
 	opts := protocol.ProtocolOptions{Muxer: f.mux, ErrorChan: f.errCh, Mode: p.Mode, Role: role, Version: p.Version}
 	built := p.Build(role, opts)
 	cfg := built.VerifConfig()
@@ -113,6 +120,18 @@ func newG3Fixture(p *g3Proto, role protocol.ProtocolRole, o g3FixOpts) *g3Fixtur
 				orig := e.TimeoutFunc
 				sc := o.scale
 				e.TimeoutFunc = func() time.Duration { return orig() / time.Duration(sc) }
+			}
+			sm[s] = e
+		}
+	}
+	if o.slowTimers {
+		// runs that are not about time: no state timeout may fire because the machine is slow
+		for s, e := range sm {
+			if e.Timeout > 0 && e.Timeout < time.Hour {
+				e.Timeout = time.Hour
+			}
+			if e.TimeoutFunc != nil {
+				e.TimeoutFunc = func() time.Duration { return time.Hour }
 			}
 			sm[s] = e
 		}
@@ -140,7 +159,19 @@ func (f *g3Fixture) start() {
 
 // peerReader drains the pipe (net.Pipe is synchronous) and splits the engine's byte
 // stream into segments and CBOR messages.
+// watchMux notes when the muxer has shut down completely (all its goroutines have exited:
+// nothing more will be written to the connection).
+func (f *g3Fixture) watchMux() {
+	for range f.mux.ErrorChan() {
+	}
+	f.mu.Lock()
+	f.muxDone = true
+	f.cond.Broadcast()
+	f.mu.Unlock()
+}
+
 func (f *g3Fixture) peerReader() {
+	defer close(f.readerDone)
 	hdr := make([]byte, 8)
 	for {
 		if _, err := io.ReadFull(f.peer, hdr); err != nil {
@@ -152,6 +183,7 @@ func (f *g3Fixture) peerReader() {
 			return
 		}
 		f.mu.Lock()
+		f.peerBytes += uint64(len(payload))
 		f.wireB.Write(payload)
 		for f.wireB.Len() > 0 {
 			var raw []cbor.RawMessage
@@ -182,7 +214,7 @@ func (f *g3Fixture) peerSegment(payload []byte) error {
 	binary.BigEndian.PutUint16(buf[4:6], id)
 	binary.BigEndian.PutUint16(buf[6:8], uint16(len(payload)))
 	copy(buf[8:], payload)
-	_ = f.peer.SetWriteDeadline(time.Now().Add(3 * time.Second))
+	_ = f.peer.SetWriteDeadline(time.Now().Add(g3Deadline))
 	_, err := f.peer.Write(buf)
 	return err
 }
@@ -226,6 +258,28 @@ func (f *g3Fixture) waitFor(timeout time.Duration, pred func(ev []g3Event, wire 
 	return true
 }
 
+// g3Deadline is the deadline of every synchronisation wait: it only matters when the engine
+// is really stuck; all waits return as soon as the awaited event has been observed.
+const g3Deadline = 90 * time.Second
+
+// waitWireDrained blocks until the raw peer has received every payload byte the engine has
+// handed to the muxer so far (sum of the `seg` hook events), so that the wire observation
+// does not depend on how fast the muxer and the peer goroutine are scheduled.  If the muxer
+// has shut down (after a protocol error the protocol unregisters itself, and the next segment
+// of the peer for it makes the muxer stop and drop what it had not written yet) nothing more
+// will arrive: that also ends the wait.
+func (f *g3Fixture) waitWireDrained() bool {
+	return f.waitFor(g3Deadline, func(ev []g3Event, _ []uint8) bool {
+		var segs uint64
+		for _, e := range ev {
+			if e.Kind == "seg" {
+				segs += e.A
+			}
+		}
+		return f.peerBytes >= segs || f.muxDone
+	})
+}
+
 func (f *g3Fixture) count(kinds ...string) int {
 	f.mu.Lock()
 	defer f.mu.Unlock()
@@ -254,14 +308,23 @@ func (f *g3Fixture) close() {
 	}
 	f.closed = true
 	f.mu.Unlock()
-	f.P.Stop()
+	// muxer first: Protocol.Stop() unregisters from the muxer, which blocks while the muxer's
+	// readLoop is blocked delivering to a protocol that no longer reads (peer flooding after an
+	// error); stopping the muxer releases that.
 	f.mux.Stop()
 	_ = f.peer.Close()
 	_ = f.local.Close()
+	f.P.Stop()
+	// the reader sees EOF once the pipe is closed: after that every byte that was written
+	// has been recorded
+	select {
+	case <-f.readerDone:
+	case <-time.After(g3Deadline):
+	}
 	// let the engine goroutines observe the shutdown, then forget the fixture
 	select {
 	case <-f.P.DoneChan():
-	case <-time.After(500 * time.Millisecond):
+	case <-time.After(g3Deadline):
 	}
 	g3FixMu.Lock()
 	delete(g3Fixtures, f.P)
